@@ -99,7 +99,7 @@ pub fn reinsert(constr: &mut Constraints, constraint: &Constraint, total: usize)
         "({}={}) ",
         constraint.parent.pos.start, constraint.child.pos.start
     );
-    let count = format!("[reinserting {}\\{}] ", total - constr.len(), total);
+    let count = format!("[reinserting {}\\{}] ", total.saturating_sub(constr.len()), total);
     trace!("{:width$}{}{}", pos, count, constraint, width = 17);
 
     constr.reinsert(constraint)?;
